@@ -129,6 +129,9 @@ def sanitizer_signature(text):
     return kind, frame
 
 
+_RUN_SHARDED_CALLS = 0
+
+
 def run_sharded(res, exe, args, rundir, nshards=NCPU, per_case_timeout=120, env_extra=None, crash_prop=None,
                 crash_is_violation=True, max_restarts=60, total_cases_hint=None, max_hangs=2):
     """Runs `exe args --shard i --nshards N` for all shards in parallel.  A shard that dies is
@@ -136,15 +139,20 @@ def run_sharded(res, exe, args, rundir, nshards=NCPU, per_case_timeout=120, env_
     A shard whose progress does not change for per_case_timeout seconds is killed (hang event)."""
     env = rundir.env(env_extra)
     lock = threading.Lock()
+    # harnesses append to their event file: every call gets file names of its own, or a second phase run in the same
+    # directory would read the first phase's events again
+    global _RUN_SHARDED_CALLS
+    _RUN_SHARDED_CALLS += 1
+    callid = _RUN_SHARDED_CALLS
 
     def one(shard):
         start = 0
         restarts = 0
         hangs = 0
         while True:
-            out = os.path.join(rundir.path, "ev-%d-%d.jsonl" % (shard, restarts))
-            prog = os.path.join(rundir.path, "pr-%d.txt" % shard)
-            errp = os.path.join(rundir.path, "err-%d-%d.txt" % (shard, restarts))
+            out = os.path.join(rundir.path, "ev-%d-%d-%d.jsonl" % (callid, shard, restarts))
+            prog = os.path.join(rundir.path, "pr-%d-%d.txt" % (callid, shard))
+            errp = os.path.join(rundir.path, "err-%d-%d-%d.txt" % (callid, shard, restarts))
             try:
                 os.unlink(prog)
             except OSError:
